@@ -299,7 +299,7 @@ func c07Run(lc *resolve.LocalClient, root resolve.VersionKey) {
 		c, cerr := semver.Maven.ParseConstraint(c07MgtReq)
 		if cerr == nil && c.IsSimple() {
 			for _, e := range g.Edges {
-				if _, typed := e.Type.GetAttr(dep.MavenArtifactType); typed {
+				if t, typed := e.Type.GetAttr(dep.MavenArtifactType); typed && t != "jar" {
 					continue
 				}
 				if _, classified := e.Type.GetAttr(dep.MavenClassifier); classified {
